@@ -3,7 +3,8 @@
 From DV Require Export Gen.Schema Model.Eflr.
 
 (* ---- raw API inputs ---- *)
-Inductive rhint := HNone | HInt (z : Z) | HFloat (b : Z) | HDT (d : dtime).
+Inductive rhint := HNone | HInt (z : Z) | HFloat (b : Z) | HDT (d : dtime)
+  | HFloatLoose (b : Z).      (* float(s) succeeds although s has no '.' (e.g. "1e3"): only DTime/allow_float uses it *)
 (* the hint of a string is its meaning under int()/float()/strptime as computed by CPython (trusted, supplied by the harness) *)
 Inductive raw :=
 | RNone | RInt (z : Z) | RBool (b : bool) | RFloat (b : Z)
@@ -136,7 +137,7 @@ Definition conv_elem (hc : bool) (item_ty : nat -> option nat) (ad : adef) (cur_
     | RDT d => OK (Some (SDT d))
     | RInt _ | RBool _ | RFloat _ => if ad_allow_float ad then (do b <- float_parse r; OK (Some (SFloat b))) else Err EType
     | RStr _ (HDT d) => OK (Some (SDT d))
-    | RStr _ (HFloat b) => if ad_allow_float ad then OK (Some (SFloat b)) else Err EValue
+    | RStr _ (HFloat b) | RStr _ (HFloatLoose b) => if ad_allow_float ad then OK (Some (SFloat b)) else Err EValue
     | RStr _ (HInt z) => if ad_allow_float ad then (do b <- int_to_f64 z; OK (Some (SFloat b))) else Err EValue
     | RStr _ HNone => Err EValue
     | _ => Err EType
